@@ -994,6 +994,47 @@ pub mod verif {
         NODE_COUNT.load(Ordering::SeqCst)
     }
 
+    /// One call of the real `analyze_recursive` with arbitrary parameters (maximal depth, current depth, extensions used,
+    /// window), on the caller's thread, against the artifact's hasher, history and table; the jitter generator is seeded
+    /// directly. Returns the value and the number of nodes entered, or None when the call was interrupted.
+    pub fn analyze_node(
+        artifact: &SearchArtifact,
+        state: &State,
+        max_depth: usize,
+        current_depth: usize,
+        current_extension: usize,
+        alpha: i32,
+        beta: i32,
+        jitter_seed: u64,
+    ) -> Option<(i32, usize)> {
+        let (_signal, listen) = CancellationToken::new();
+        NODE_COUNT.store(0, Ordering::SeqCst);
+        CANCEL_AT.store(usize::MAX, Ordering::SeqCst);
+        let evaluator = eval::Evaluator::default();
+        let mut rng = RandomNumberGenerator::seed_from_u64(jitter_seed);
+        let mut buffer = Vec::new();
+        let mut nodes = 0usize;
+        Searcher::analyze_recursive(
+            state,
+            &evaluator,
+            &listen,
+            &artifact.hasher,
+            &artifact.state_history,
+            &artifact.transpositions,
+            max_depth,
+            current_depth,
+            current_extension,
+            eval::Evaluation::from(alpha),
+            eval::Evaluation::from(beta),
+            None,
+            &mut rng,
+            &mut buffer,
+            &mut nodes,
+        )
+        .ok()
+        .map(|v| (i32::from(v), nodes))
+    }
+
     // ---- forced schedules: the workers of an iteration take turns at their table operations ----
     //
     // With a schedule installed, every worker of the current iteration stops in front of each
